@@ -11,8 +11,10 @@
    * generators: every visit yields a list of E-items (0 or 1 with the shipped method table);
      single-value unpacking `x, = ...` of another length is ValueError; `[0]` of nothing IndexError.
    * _binary_operation consumes simplify_if_same / _yield_nested_children lazily: for each operand in
-     turn, an operand of the very same class is replaced by its own operands (recursively, visited
-     with the OUTER operation's child context: the inner operation's name is not propagated);
+     turn, an operand of the very same class THAT HAS NO NAME OF ITS OWN (`get_name(child) is None`) is
+     replaced by its own operands (recursively, visited with the OUTER operation's child context, which
+     is also what the un-named inner operation would hand down); an operand of the same class that has
+     a name is kept and visited like any other operand, so that its name reaches its elements;
      otherwise the AND/OR mix test comes first, then the operand is visited.  So the exception that
      wins is the first one in that order.  This is the `par` argument of `visit`.
    * E-items are mutable objects; the model is value based.  That is faithful because a leaf is
@@ -542,6 +544,11 @@ Definition walk (f : item -> option cls -> ectx -> eres (list eitem)) (par : opt
         end
     end.
 
+(* simplify_if_same: `type(child) is type(current_node) and get_name(child) is None` — the operand t of an
+   operation of class p is replaced by its own operands.  ('' is a name: `is None`, not truthiness.) *)
+Definition unnamed (t : item) : bool := match name_of t with None => true | Some _ => false end.
+Definition flattened (t : item) (p : cls) : bool := cls_eqb (cls_of t) p && unnamed t.
+
 (* visit_iter(node, context), given the children cs of the node and the visit function `rec` for them.
    par = Some p: the node is being enumerated as an operand of a _binary_operation on a node of
    class p, cx being that operation's child context (simplify_if_same + _yield_nested_children). *)
@@ -644,7 +651,7 @@ Definition visit_via (cfg : es_config) (env : es_env)
     match par with
     | None => normal
     | Some p =>
-        if cls_eqb (cls_of t) p then walk rec (Some p) cx cs       (* simplify_if_same *)
+        if flattened t p then walk rec (Some p) cx cs              (* simplify_if_same *)
         else if mixes cfg p (cls_of t) then
           (* raise OrAndAndOnSameLevel(self._get_operator_extract(child)): children[0], children[1] *)
           if Nat.ltb (length cs) 2 then RExc (XOther KIndexError) else RExc XMix
